@@ -45,8 +45,14 @@ type Item struct {
 }
 
 type From struct {
-	K     string   `json:"k"` // dual table derived join
+	K     string   `json:"k"` // dual table sel derived join
 	Fn    string   `json:"fn,omitempty"` // top-level selector function (mix=>path)
+	// kind "sel": the table name is a SELECTOR (brackets, keep=>, each, ranges, pipes, `::`, fn=>) — the C09 abstract syntax
+	// (prop_c09.go) and its text. The real engine is given the text as a back-quoted table name; the model is given the
+	// syntax tree (Model/Ast.v FSel) and prints the text itself (Spec/SelectorSpec.v print_sel). selTextsOK verifies
+	// that Text is the print of Sel.
+	Sel  []c09ASeg `json:"sel,omitempty"`
+	Text string    `json:"text,omitempty"`
 	Path  []string `json:"path,omitempty"`
 	Alias string   `json:"alias,omitempty"`
 	Q     *Stmt    `json:"q,omitempty"`
@@ -75,7 +81,11 @@ type Stmt struct {
 	With       []CTE      `json:"with,omitempty"`
 	From       *From      `json:"from,omitempty"`
 	Where      *Expr      `json:"where,omitempty"`
+	// Group: the grouping columns as the texts BuildGroup registers. An entry without '.' and '[' is a flat column; an entry
+	// with one of them is a selector (key steps a.b, index steps [i]): one back-quoted identifier in the SQL text, a path
+	// of steps in the Coq term (groupKeySQL / groupKeyCoq).
 	Group      []string   `json:"group,omitempty"`
+	GroupPlain bool       `json:"group_plain,omitempty"` // a two-key-step entry a.b is written as qualifier.name instead of `a.b`
 	Having     *Expr      `json:"having,omitempty"`
 	Items      []Item     `json:"items,omitempty"`
 	Distinct   bool       `json:"distinct,omitempty"`
@@ -87,6 +97,67 @@ type Stmt struct {
 	// Raw: literal SQL text, for checks that do not consult the model (C11 purity over features the model lacks);
 	// rendered to Coq as an empty SELECT over dual
 	Raw string `json:"raw,omitempty"`
+}
+
+// SelFrom: a FROM whose table name is the selector a
+func SelFrom(a []c09ASeg) *From { return &From{K: "sel", Sel: a, Text: c09PrintSel(a)} }
+
+// selTextsOK: every selector source of the statement carries the text its syntax tree prints to (so a replay file cannot
+// give the real engine one selector and the model another).
+func selTextsOK(q *Stmt) bool {
+	ok := true
+	var walkS func(s *Stmt)
+	var walkE func(e *Expr)
+	var walkF func(f *From)
+	walkE = func(e *Expr) {
+		if e == nil {
+			return
+		}
+		for _, x := range []*Expr{e.A, e.B, e.C, e.Else} {
+			walkE(x)
+		}
+		for _, x := range e.Items {
+			walkE(x)
+		}
+		for _, w := range e.Whens {
+			walkE(w[0])
+			walkE(w[1])
+		}
+		walkS(e.Q)
+	}
+	walkF = func(f *From) {
+		if f == nil {
+			return
+		}
+		if f.K == "sel" && (len(f.Sel) == 0 || f.Text != c09PrintSel(f.Sel)) {
+			ok = false
+		}
+		if f.K != "sel" && (f.Sel != nil || f.Text != "") {
+			ok = false
+		}
+		walkE(f.On)
+		walkF(f.L)
+		walkF(f.R)
+		walkS(f.Q)
+	}
+	walkS = func(s *Stmt) {
+		if s == nil {
+			return
+		}
+		walkE(s.Where)
+		walkE(s.Having)
+		for _, it := range s.Items {
+			walkE(it.E)
+		}
+		walkF(s.From)
+		walkS(s.L)
+		walkS(s.R)
+		for _, c := range s.With {
+			walkS(c.Q)
+		}
+	}
+	walkS(q)
+	return ok
 }
 
 // ---------- constructors ----------
@@ -262,6 +333,8 @@ func (f *From) SQL() string {
 			return "`" + f.Fn + "=>" + strings.Join(f.Path, ".") + "`" + as
 		}
 		return sqlPath(f.Path) + as
+	case "sel":
+		return "`" + strings.ReplaceAll(f.Text, "`", "``") + "`" + as
 	case "derived":
 		return "(" + f.Q.SQL() + ")" + as
 	case "join":
@@ -346,7 +419,7 @@ func (s *Stmt) SQL() string {
 	if len(s.Group) > 0 {
 		g := make([]string, len(s.Group))
 		for i, c := range s.Group {
-			g[i] = sqlIdent(c)
+			g[i] = groupKeySQL(c, s.GroupPlain)
 		}
 		b.WriteString(" GROUP BY " + strings.Join(g, ", "))
 	}
@@ -379,6 +452,92 @@ func (s *Stmt) limitSQL() string {
 		return " LIMIT " + lit(*s.Offset) + ", " + lit(*s.Limit)
 	}
 	return " LIMIT " + lit(*s.Limit) + " OFFSET " + lit(*s.Offset)
+}
+
+// ---------- GROUP BY keys ----------
+
+// keyStep: one step of a grouping column that is a selector (Model/Ast.v kstep)
+type keyStep struct {
+	Key   string
+	Index int
+	IsIdx bool
+}
+
+func isWordByte(c byte) bool {
+	return c == '_' || c >= '0' && c <= '9' || c >= 'a' && c <= 'z' || c >= 'A' && c <= 'Z'
+}
+
+// parseGroupKey splits the text of a grouping column into the steps selector.go's ParseSelector yields for it, for the
+// fragment the model has (Model/Ast.v kstep): runs of word bytes are key steps, '.' separates, [n] with a decimal n is an
+// index step. ok=false: anything else (quotes, pipes, ranges, `each`, `<-`, `::`, `=>`, spaces, an empty selector).
+// Proofs/C03PathReader.v runs the parser MODEL on the texts of the generators and gets the same steps.
+func parseGroupKey(text string) (steps []keyStep, ok bool) {
+	i := 0
+	for i < len(text) {
+		c := text[i]
+		switch {
+		case c == '.':
+			i++
+		case isWordByte(c):
+			j := i
+			for j < len(text) && isWordByte(text[j]) {
+				j++
+			}
+			steps = append(steps, keyStep{Key: text[i:j]})
+			i = j
+		case c == '[':
+			j := i + 1
+			for j < len(text) && text[j] >= '0' && text[j] <= '9' {
+				j++
+			}
+			if j == i+1 || j-i > 10 || j >= len(text) || text[j] != ']' {
+				return nil, false
+			}
+			n, err := strconv.Atoi(text[i+1 : j])
+			if err != nil {
+				return nil, false
+			}
+			steps = append(steps, keyStep{IsIdx: true, Index: n})
+			i = j + 1
+		default:
+			return nil, false
+		}
+	}
+	return steps, len(steps) > 0
+}
+
+func isPathGroupKey(text string) bool { return strings.ContainsAny(text, ".[") }
+
+func groupKeySQL(text string, plain bool) string {
+	if !isPathGroupKey(text) {
+		return sqlIdent(text)
+	}
+	if plain {
+		if steps, ok := parseGroupKey(text); ok && len(steps) == 2 && !steps[0].IsIdx && !steps[1].IsIdx &&
+			plainIdent(steps[0].Key) && plainIdent(steps[1].Key) && text == steps[0].Key+"."+steps[1].Key {
+			return text // qualifier.name: BuildGroup registers the same text
+		}
+	}
+	return "`" + strings.ReplaceAll(text, "`", "``") + "`"
+}
+
+func groupKeyCoq(text string) string {
+	if !isPathGroupKey(text) {
+		return "(gcol " + coqStr(text) + ")"
+	}
+	steps, ok := parseGroupKey(text)
+	if !ok {
+		panic("grouping column outside the modelled selector fragment (key steps and [n] index steps): " + text)
+	}
+	items := make([]string, len(steps))
+	for i, s := range steps {
+		if s.IsIdx {
+			items[i] = "(KIdx " + strconv.Itoa(s.Index) + "%Z)"
+		} else {
+			items[i] = "(KKey " + coqStr(s.Key) + ")"
+		}
+	}
+	return "(" + coqStr(text) + ", " + coqList(items) + ")"
 }
 
 // ---------- Coq rendering ----------
@@ -485,6 +644,8 @@ func (f *From) Coq() string {
 			return "(FTableFn " + coqStr(f.Fn) + " " + coqPath(f.Path) + " " + coqStr(f.Alias) + ")"
 		}
 		return "(FTable " + coqPath(f.Path) + " " + coqStr(f.Alias) + ")"
+	case "sel":
+		return "(FSel " + c09CoqAstIn("SelectorSpec.", f.Sel) + " " + coqStr(f.Alias) + ")"
 	case "derived":
 		return "(FDerived " + f.Q.Coq() + " " + coqStr(f.Alias) + ")"
 	case "join":
@@ -563,7 +724,7 @@ func (s *Stmt) Coq() string {
 	}
 	group := make([]string, len(s.Group))
 	for i, g := range s.Group {
-		group[i] = coqStr(g)
+		group[i] = groupKeyCoq(g)
 	}
 	order := make([]string, len(s.Order))
 	for i, k := range s.Order {
